@@ -3,7 +3,10 @@
 Tie: real `tfl.layers.RTL(...).build(shape)._rtl_structure`, `set_random_lattice_ensemble`,
 `construct_prefitting_model_config` (all-pairs cover) and `set_crystals_lattice_ensemble` (with
 generated torsion/Laplacian scores) vs `Tfl.Ensembles.*` given the replayed permutations/draws.
-Oracle: every clause of C17 read directly on the real structures + determinism in the seed."""
+Oracle: every clause of C17 read directly on the real structures + determinism in the seed.
+crystals_real stream: the UN-PATCHED `set_crystals_lattice_ensemble` (real `_get_torsions_and_laplacians`, whose
+per-lattice normalisation is outside the Lean model) on small prefitting models with assigned lattice kernels --
+oracle only. RTL layers without inputs: error class vs the model only (outside the quantifier)."""
 import itertools
 import numpy as np
 from fractions import Fraction
@@ -14,7 +17,10 @@ RULE = ("one PRNG drives: RTL layers (0-4 increasing groups and 0-4 unconstraine
         "on/off, incl. too-small layers); random ensembles (2-9 features, 1-8 lattices, rank 1-5, incl. rank > "
         "features and too few slots); all-pairs covers (3-10 features, rank 2-6); Crystals final lattices "
         "(3-8 features, rank 2..n-1, 1-8 lattices with enough slots; symmetric dyadic torsions, dyadic "
-        "Laplacians: positive / sparse / one dominant / tied / some-zero / all-zero). Non-trivial = structure "
+        "Laplacians: positive / sparse / one dominant / tied / some-zero / all-zero); Crystals REAL scoring path "
+        "(un-patched set_crystals_lattice_ensemble on prefitting models of 3-5 features with ASSIGNED lattice "
+        "kernels: random / dyadic / constant / constant per lattice / one constant lattice / flat in one feature); "
+        "RTL layers without any input (correspondence only). Non-trivial = structure "
         "with >1 lattice; distinct = (kind, sizes, seed-dependent structure hash).")
 ASSUMPTIONS = [
     "shuffles / choices are recovered by replaying RandomState(seed).shuffle on range(n) (RTL, cover) and by "
@@ -22,6 +28,12 @@ ASSUMPTIONS = [
     "python sets in the all-pairs cover are compared as sets (iteration order of a set is not modelled)",
     "Crystals scores are small dyadic rationals so every float sum/product/comparison in the real code is exact; "
     "np.mean(torsions)*rank**2/2 is passed to the model as the exact rational of the float the code computes",
+    "the torsion / Laplacian scoring of the prefitting lattices (_get_torsions_and_laplacians: per-lattice "
+    "normalisation weights -= min; weights /= max, regularizer calls, means) is NOT in the Lean model (scores are "
+    "its inputs): the crystals_real stream runs it un-patched, oracle only (rank, coverage, pair cover of the "
+    "prefitting config, determinism); a constant prefitting kernel is 0/0 there (finding F-C17-b)",
+    "an RTL layer without inputs admits no arrangement (outside the quantifier); its ZeroDivisionError is only "
+    "compared with the model's `.error .other`",
     "Crystals theorems take 'all importance scores > 0', 'order is a descending sort', 'torsions >= 0' as "
     "hypotheses; the driver evaluates them on every case",
 ]
@@ -59,8 +71,17 @@ def gen_rtl(rng):
               avoid=rng.random() < 0.7, unc_first=rng.random() < 0.5)
 
 
+def gen_rtl_zero(rng):
+  """a layer without any input feature: no arrangement exists (outside C17's quantifier); the code raises
+  ZeroDivisionError at `total_usage // len(rtl_inputs)`, the model `.error .other` -- correspondence only"""
+  return dict(fmt=rng.choice(["plain", "dict_zero"]), inc=[], unc=[], L=rng.randint(1, 4), r=rng.randint(1, 3),
+              seed=rng.randint(0, 10 ** 6), avoid=rng.random() < 0.7, unc_first=False)
+
+
 def rtl_shape(case):
   inc, unc, fmt = case["inc"], case["unc"], case["fmt"]
+  if fmt == "dict_zero":
+    return {"unconstrained": (None, 0)}
   if fmt == "plain":
     return (None, sum(unc))
   shape = {}
@@ -144,11 +165,12 @@ def check_rtl(ctx, case, real, reply):
   key = dict(kind="rtl", cls=cls)
   if err is not None:
     ctx.count("rtl:" + err)
-    if reply == err:
+    # n = 0: ZeroDivisionError (rtl_layer.py:570) is the model's `.error .other`
+    if reply == err or (n == 0 and err == "ERR Other:ZeroDivisionError" and reply == "ERR Other"):
       ctx.agree("rtl.structure")
     else:
       ctx.disagree("rtl.structure", case, err, reply, "error class")
-    if L * r >= n:
+    if L * r >= n and n > 0:
       ctx.fail("raises", key, case, err, "layer with enough slots rejected")
     ctx.case(sig=("rtl", "err", n, L, r), nontrivial=False, sample=case)
     return
@@ -446,6 +468,169 @@ def check_crystals(ctx, case, real, reply):
   ctx.count("crystals:repeat_inside_lattice:%d" % int(any(len(set(l)) != len(l) for l in lats)))
 
 
+# ------------------------------------------------------------------ Crystals, REAL scoring path
+REAL_KINDS = ["random", "random", "random", "dyadic", "constant", "constant_per_lattice", "one_constant", "flat_feature"]
+CONSTANT_KINDS = ("constant", "constant_per_lattice", "one_constant")
+
+
+def gen_crystals_real(rng, kind=None):
+  """small prefitting models whose lattice kernels are ASSIGNED (no training): the un-patched
+  set_crystals_lattice_ensemble -> _get_final_crystal_lattices -> _get_torsions_and_laplacians path, i.e. the
+  per-lattice normalisation `weights -= min; weights /= max` that the score-driven stream replaces"""
+  n = rng.randint(3, 5)
+  r = rng.randint(2, min(3, n - 1))
+  L = max(2, -(-n // r)) + rng.choice([0, 0, 1, 2])
+  return dict(n=n, L=L, r=r, seed=rng.randint(0, 999), kind=kind or rng.choice(REAL_KINDS),
+              kseed=rng.randint(0, 10 ** 6))
+
+
+def real_kernels(case, pc_lattices):
+  """kernel column (2**len(lattice) floats) per prefitting lattice, by kind"""
+  import random
+  rng = random.Random(case["kseed"])
+  kind, n = case["kind"], case["n"]
+  flat = rng.randrange(n) if kind == "flat_feature" else None
+  which = rng.randrange(len(pc_lattices)) if kind == "one_constant" else None
+  const = rng.randint(-8, 8) / 8.0
+  out = []
+  for li, lat in enumerate(pc_lattices):
+    d = len(lat)
+    if kind == "constant" or (kind == "one_constant" and li == which):
+      k = [const] * (2 ** d)
+    elif kind == "constant_per_lattice":
+      k = [rng.randint(-8, 8) / 8.0] * (2 ** d)
+    elif kind == "dyadic":
+      k = [rng.randint(0, 8) / 8.0 for _ in range(2 ** d)]
+      if len(set(k)) == 1:
+        k[0] = k[0] + 0.5
+    elif kind == "flat_feature" and flat in lat:
+      # does not depend on feature `flat`: its Laplacian and all its torsions are exactly 0
+      p = lat.index(flat)
+      base = {}
+      k = []
+      for v in itertools.product([0, 1], repeat=d):
+        rest = v[:p] + v[p + 1:]
+        if rest not in base:
+          base[rest] = rng.random()
+        k.append(base[rest])
+    else:
+      k = [rng.random() for _ in range(2 ** d)]
+    out.append(k)
+  return out, flat
+
+
+def real_crystals_path(case):
+  import copy, warnings
+  import tensorflow as tf
+  import tensorflow_lattice as tfl
+  from tensorflow_lattice.python import premade_lib, configs
+  n = case["n"]
+  names = ["f%d" % i for i in range(n)]
+
+  def config():
+    return configs.CalibratedLatticeEnsembleConfig(
+        feature_configs=[configs.FeatureConfig(name=f, pwl_calibration_input_keypoints=[0.0, 1.0]) for f in names],
+        lattices="crystals", num_lattices=case["L"], lattice_rank=case["r"], random_seed=case["seed"],
+        output_initialization=[0.0, 1.0])
+  res = dict(err=None, lats=None, again=None, cover=None, scores=None, flat=None, const_kernel=False, importance=None, zero_mass=False)
+  try:
+    mc = config()
+    pc = premade_lib.construct_prefitting_model_config(mc)
+    cover = [[int(f[1:]) for f in lat] for lat in pc.lattices]
+    res["cover"] = cover
+    pm = tfl.premade.CalibratedLatticeEnsemble(pc)
+    kernels, res["flat"] = real_kernels(case, cover)
+    res["const_kernel"] = any(len(set(np.float32(v) for v in k)) == 1 for k in kernels)
+    for li, k in enumerate(kernels):
+      layer = pm.get_layer("%s_%d" % (premade_lib.LATTICE_LAYER_NAME, li))
+      layer.kernel.assign(np.array(k, dtype=np.float32).reshape(layer.kernel.shape))
+  except Exception as e:
+    res["err"] = "setup:" + classify_exc(e) + ":" + str(e)[:80]
+    return res
+  with warnings.catch_warnings():
+    warnings.simplefilter("ignore")
+    try:
+      t, lap = premade_lib._get_torsions_and_laplacians(
+          prefitting_model_config=pc, prefitting_model=pm, feature_names=names)
+      res["scores"] = dict(t=[[float(v) for v in row] for row in t], lap=[float(v) for v in lap])
+      # the code's own importance scores and running "remaining score mass" (same objects, same dtypes, same ops):
+      # does the use-allocation loop reach a division by a remaining mass of exactly 0?
+      imp = np.array(lap) * premade_lib._LAPLACIAN_WEIGHT_IN_IMPORTANCE
+      for f0, f1 in itertools.combinations(range(n), 2):
+        imp[f0] += t[f0][f1]
+        imp[f1] += t[f0][f1]
+      rs, zero_mass = np.sum(imp), False
+      if np.all(np.isfinite(imp)):
+        for f in np.argsort(-imp):
+          if rs == 0:
+            zero_mass = True
+            break
+          rs -= imp[f]
+      res["importance"], res["zero_mass"] = [float(v) for v in imp], zero_mass
+    except Exception as e:
+      res["scores"] = "raises " + type(e).__name__
+    for slot in ("lats", "again"):
+      mc = config()
+      try:
+        premade_lib.set_crystals_lattice_ensemble(mc, pc, pm)
+        res[slot] = [[int(f[1:]) for f in lat] for lat in mc.lattices]
+      except Exception as e:
+        res["err"] = ("ERR Other:AssertionError" if isinstance(e, AssertionError) else classify_exc(e)) + ":" + str(e)[:60]
+        break
+  return res
+
+
+def check_crystals_real(ctx, case, res):
+  n, L, r, kind = case["n"], case["L"], case["r"], case["kind"]
+  ctx.count("crystals_real:" + kind)
+  if res["err"] is not None and res["err"].startswith("setup:"):
+    ctx.fail("raises", dict(kind="crystals", cls="crystals_real_setup", path="real"), case, res["err"],
+             "prefitting model of a valid crystals configuration could not be built")
+    ctx.case(sig=("crystals_real", "setup-err", n, L, r), nontrivial=False, sample=case)
+    return
+  cover = res["cover"]
+  # ---- the prefitting cover (real construct_prefitting_model_config): every pair together, size <= rank
+  ckey = dict(kind="cover", cls="cover:valid1", path="real")
+  for i, j in itertools.combinations(range(n), 2):
+    if not any(i in l and j in l for l in cover):
+      ctx.fail("pair_covered", ckey, case, cover, "pair (%d,%d)" % (i, j))
+  if any(len(l) > r or len(set(l)) != len(l) for l in cover):
+    ctx.fail("size_le_rank", ckey, case, cover)
+  nan_scores = isinstance(res["scores"], dict) and not (
+      np.all(np.isfinite(np.array(res["scores"]["t"]))) and np.all(np.isfinite(np.array(res["scores"]["lap"]))))
+  ctx.count("crystals_real:nan_scores:%d" % int(nan_scores))
+  if res["err"] is not None:
+    # classes the findings are pinned to: the ROOT of the failure, read off the real scores
+    zero_mass = bool(res.get("zero_mass")) and not nan_scores
+    if res.get("const_kernel") and nan_scores and "NaN" in res["err"]:
+      cls = "crystals_constant_prefitting_kernel"       # F-C17-b: 0/0 in the per-lattice normalisation
+    elif zero_mass and ("NaN" in res["err"] or "infinity" in res["err"]):
+      # F-C17-a reached through the real scoring path: a feature no prefitting lattice depends on has importance
+      # score 0, or a rounding residue (~1e-15) that the running `remaining_scores -= score` absorbs; either way
+      # the allocation divides by a remaining score mass of exactly 0
+      cls = "crystals_zero_score_feature" if min(res["importance"]) == 0 else "crystals_absorbed_score_feature"
+    else:
+      cls = "crystals_real:" + kind
+    ctx.count("crystals_real_err:" + cls)
+    ctx.fail("raises", dict(kind="crystals", cls=cls, path="real"), case, res["err"],
+             "set_crystals_lattice_ensemble on assigned prefitting kernels (%s); importance %r zero_mass %r scores %r" % (
+                 kind, res.get("importance"), res.get("zero_mass"), res["scores"]))
+    ctx.case(sig=("crystals_real", "err", cls, n, L, r), nontrivial=False, sample=case)
+    return
+  lats = res["lats"]
+  key = dict(kind="crystals", cls="crystals_real:" + kind, path="real")
+  ctx.case(sig=("crystals_real", n, L, r, shash(lats)), nontrivial=True, sample=dict(case=case, lattices=lats, cover=cover))
+  if nan_scores:
+    ctx.fail("finite_scores", key, case, res["scores"], "NaN torsion / Laplacian scores went through unnoticed")
+  if lats != res["again"]:
+    ctx.fail("deterministic", key, case, dict(first=lats, second=res["again"]))
+  if len(lats) != L or any(len(l) != r for l in lats):
+    ctx.fail("exact_rank", key, case, lats)
+  if set(f for l in lats for f in l) != set(range(n)):
+    ctx.fail("every_feature_used", key, case, lats)
+  ctx.count("crystals_real:repeat_inside_lattice:%d" % int(any(len(set(l)) != len(l) for l in lats)))
+
+
 def gen_crystals(rng):
   n = rng.randint(3, 8)
   r = rng.randint(2, n - 1)
@@ -462,6 +647,9 @@ def gen_crystals(rng):
 def run_cases(ctx, cases):
   """cases: list of (kind, case). Executes the real code, one driver call, then checks."""
   lines, reals = [], []
+  for kind, case in [kc for kc in cases if kc[0] == "crystals_real"]:
+    check_crystals_real(ctx, case, real_crystals_path(case))
+  cases = [kc for kc in cases if kc[0] != "crystals_real"]
   for kind, case in cases:
     if kind == "rtl":
       real = real_rtl(case, call=case.get("call", False))
@@ -514,10 +702,18 @@ def run(ctx):
     cases.append(("cover", dict(n=n, L=rng.randint(1, 5), r=r, seed=rng.randint(0, 10 ** 6))))
   for _ in range(ctx.n(220, 4000)):
     cases.append(("crystals", gen_crystals(rng)))
+  for _ in range(ctx.n(4, 40)):
+    cases.append(("rtl", dict(gen_rtl_zero(rng), call=rng.random() < 0.5)))
+  nreal = ctx.n(24, 400)
+  for k in range(nreal):
+    # every kind at least once per run, the rest drawn
+    cases.append(("crystals_real", gen_crystals_real(rng, kind=sorted(set(REAL_KINDS))[k] if k < len(set(REAL_KINDS)) else None)))
   run_cases(ctx, cases)
 
 
 def replay(ctx, failure):
   case = failure["case"]
   kind = failure["key"].get("kind", "rtl")
+  if failure["key"].get("path") == "real":
+    kind = "crystals_real"
   run_cases(ctx, [(kind, case)])
